@@ -24,7 +24,7 @@ pub const PROP: Prop = Prop {
            cob::get under different reference layouts: (a) one reference per tip, (b) the tips assigned to other \
            namespaces in a generated permutation (reference enumeration order follows the namespace name), (c) extra \
            references at interior changes, (d) a reference at every change, (e) a second repository that received the \
-           same commits in a different topological order. Oracle: object (PartialEq, includes the timelines), \
+           same commits in a different topological order, (f) additional references at a commit that is no change at all. Oracle: object (PartialEq, includes the timelines), \
            History::tips and the entry set are identical in all layouts. Non-trivial: >= 2 concurrent changes (neither an \
            ancestor of the other) with equal timestamps both kept in the history. Distinct = hash of the case.",
     assumptions: &["commit timestamps are injected through GIT_COMMITTER_DATE (one single-threaded process per shard)"],
@@ -114,8 +114,26 @@ fn judge<T: Evaluate<radicle::storage::git::Repository> + PartialEq + std::fmt::
     // (d) a reference at every change
     let layout_d: Vec<(u8, Oid)> = distinct.iter().enumerate().map(|(k, id)| (100 + k as u8, *id)).collect();
 
+    // (f) references that point at commits which are not change commits at all (a plain commit):
+    // they are not part of the change set, so they must not influence the result wherever they are enumerated
+    let bogus: Oid = {
+        let raw = &lab.repo.backend;
+        let sig = git2::Signature::new("lab", "lab@localhost", &git2::Time::new(1_600_000_123, 0)).unwrap();
+        let tree = raw.find_tree(raw.treebuilder(None).unwrap().write().unwrap()).unwrap();
+        raw.commit(None, &sig, &sig, "not a change", &tree, &[]).unwrap().into()
+    };
+    let mut layout_f = layout_a.clone();
+    for k in 0..3u8 {
+        layout_f.push((200 + k, bogus));
+    }
+
     let mut variants: Vec<(&str, Outcome<T>)> = vec![];
-    for (name, layout, l) in [("permuted-namespaces", &layout_b, lab), ("extra-interior-refs", &layout_c, lab), ("ref-at-every-change", &layout_d, lab)] {
+    for (name, layout, l) in [
+        ("permuted-namespaces", &layout_b, lab),
+        ("extra-interior-refs", &layout_c, lab),
+        ("ref-at-every-change", &layout_d, lab),
+        ("refs-at-non-change-commits", &layout_f, lab),
+    ] {
         match eval_with::<T>(l, tn, &oid, layout) {
             Ok(Some(o)) => variants.push((name, o)),
             other => {
